@@ -78,8 +78,7 @@ def mkRegs (heap : Array HeapObj) (d : FuncDef) (args : Array Value) : Option (A
     let fixed := (List.range (min n d.arity)).foldl (fun (r : Array Value) i => r.setIfInBounds i (args.getD i .nil)) base
     let extra := (args.toList.drop d.arity)
     if d.structarg then
-      if extra.length % 2 == 1 then none
-      else some (fixed.setIfInBounds d.arity (mkStruct heap extra))
+      some (fixed.setIfInBounds d.arity (mkStruct heap extra))     -- `make_struct_n`: complete pairs only, a dangling key is ignored
     else some (fixed.setIfInBounds d.arity (.tuple extra false))
   else
     some ((List.range n).foldl (fun (r : Array Value) i => r.setIfInBounds i (args.getD i .nil)) base)
